@@ -755,6 +755,14 @@ func materialiseCase(dir string, sc *cases.ScanCase) (*gitrepo.Repo, error) {
 			}
 		}
 	}
+	if sc.Gitconfig != "" {
+		f, err := os.OpenFile(filepath.Join(r.GitDir, "config"), os.O_APPEND|os.O_WRONLY, 0o644)
+		if err != nil {
+			return nil, err
+		}
+		f.WriteString(sc.Gitconfig)
+		f.Close()
+	}
 	if sc.Noise {
 		if err := addNoise(r); err != nil {
 			return nil, err
